@@ -48,6 +48,40 @@ func init() {
 	})
 	extraEngines["C02"] = append(extraEngines["C02"], func(w *World, r *Report) []*Obligation { return schematic(w, r, "C02") })
 	extraEngines["C01"] = append(extraEngines["C01"], func(w *World, r *Report) []*Obligation { return schematic(w, r, "C01") })
+	// C01 for revocation lists and OCSP responses: base.go has no recovery net on these two paths,
+	// so "a result set is returned" needs the lint bodies themselves not to panic. The safety
+	// obligations of the CRL / OCSP lints (the C02 sweep of exactly these lints) are therefore
+	// obligations of C01 as well.
+	extraEngines["C01"] = append(extraEngines["C01"], func(w *World, r *Report) []*Obligation {
+		var all []*Obligation
+		for _, li := range w.Lints() {
+			if li.Kind == "cert" || li.Kind == "legacy" {
+				continue
+			}
+			sr := w.sweepLint(li, "C02")
+			if sr.err != "" {
+				all = append(all, &Obligation{Name: "C01/lints/unsupported#" + li.Name, Prop: "C01", Kind: "unsupported", Status: "unknown", Note: "symbolic execution of the lint failed: " + clipText(sr.err), Src: li.Site})
+				continue
+			}
+			sr.unit.Prop = "C01"
+			r.Units = append(r.Units, sr.unit)
+			for _, o := range sr.obls {
+				o.Name = "C01/" + strings.TrimPrefix(o.Name, "C02/")
+				o.Name = strings.Replace(o.Name, "/safety#", "/nopanic#", 1)
+				o.Prop = "C01"
+				all = append(all, o)
+			}
+		}
+		var toSolve []*Obligation
+		for _, o := range all {
+			if o.Unit != nil {
+				toSolve = append(toSolve, o)
+			}
+		}
+		SolveAll(toSolve, r.QDir, r.Timeout, r.Tier == "thorough", 10)
+		r.Trusted = append(r.Trusted, "the package invariants of util assumed at the entry of the CRL / OCSP lint bodies (reserved-network, prime and TLD tables well formed) are established and kept stable by obligations of the C02 check (pkginv:*), not re-proved under C01")
+		return all
+	})
 }
 
 type sweepResult struct {
@@ -383,7 +417,7 @@ func schematic(w *World, r *Report, prop string) []*Obligation {
 	}
 	to := r.Timeout
 	if (prop == "C02" || prop == "C05") && r.Tier != "thorough" && to > 4 {
-		to = 4 // the sweep claims only what discharges quickly
+		to = 4 * loadFactor // the sweep claims only what discharges quickly
 	}
 	SolveAll(toSolve, r.QDir, to, r.Tier == "thorough", 10)
 	// name the offending status of refuted severity obligations (known findings are keyed by it)
